@@ -1519,8 +1519,9 @@ PROPS['C09'] = dict(
 )
 
 PROPS['C03'] = dict(
-    module='FlacModel.Props.C03',
-    theorems=['Flac.C03.wrapS32_add_wrap', 'Flac.C03.wrap_add_correct', 'Flac.C03.predict_refines_spec', 'Flac.C03.unfold_is_zigzag',
+    module='FlacModel.Props.C03b',
+    theorems=['Flac.C03.spec_accepts_implies_decoder', 'Flac.C03.decSubframes_spec', 'Flac.C03.decodeSub_spec', 'Flac.C03.recorrelate_spec',
+              'Flac.C03.readSubframe_agree', 'Flac.CrcEq.crc16_eq_spec', 'Flac.CrcEq.crc8_eq_spec', 'Flac.C03.wrapS32_add_wrap', 'Flac.C03.wrap_add_correct', 'Flac.C03.predict_refines_spec', 'Flac.C03.unfold_is_zigzag',
               'Flac.rchunk_rfc', 'Flac.C03.decLayout_eq_rfc', 'Flac.C03.decLayout_sound', 'Flac.C03.leftside_refines_spec', 'Flac.C03.sideright_refines_spec',
               'Flac.C03.midside_refines_spec', 'Flac.C03.wide_leftside_refines_spec', 'Flac.C03.md5_verify_iff'],
     components=[ValidStreams(('release', 'checked'))],
@@ -1530,12 +1531,17 @@ PROPS['C03'] = dict(
          'maximum, Rice/escaped/zero-width partitions, all four channel assignments incl. 33-bit side; residuals derived from target PCM with exact arithmetic; '
          'single frames go through FlacStreamReader, files through the byte/sample/iterator/channel readers and verify_reader (with right, wrong and absent MD5), '
          'in the optimised and the overflow-checked profile; the generator itself is validated by the L1 model on every case',
-    claim='In both build profiles: wrap_add_correct / predict_refines_spec (the prediction loop equals the RFC reconstruction whenever the reconstructed samples fit 32 bits, '
+    claim='spec_accepts_implies_decoder: for EVERY byte string, STREAMINFO context and both build profiles, whatever frame the independent RFC-level decoder Spec.specDecode '
+          'accepts (bit-serial CRCs, RFC partition rule, every MUST, exact integer reconstruction), the model of the crate\'s streaming decoder accepts too, consumes the same bytes '
+          'and returns exactly the specified samples - depths up to 32 bits for independent channels and up to 31 bits in the decorrelated stereo modes (the 33-bit side channel of 32-bit '
+          'stereo: kernel level only). Composed from: readSubframe_agree (the two parsers read the same subframes: soundness + round trip of the format), decodeSub_spec, '
+          'recorrelate_spec, crc*_eq_spec (table CRC = bit-serial CRC on every message). Kernel level, both profiles: wrap_add_correct / predict_refines_spec (the prediction loop equals the RFC reconstruction whenever the reconstructed samples fit 32 bits, '
           'even when predictions do not - two\'s-complement wrap is additive), unfold_is_zigzag (u32 Rice join = RFC zig-zag inverse within the RFC residual range), '
           'decLayout_eq_rfc (the rchunks-based layout is the RFC layout for every RFC-legal partition order), {leftside,sideright,midside}_refines_spec and the 33-bit '
           'wide_leftside_refines_spec (channel reconstruction = RFC formulas, no trap), md5_verify_iff.',
-    note='The composition into one theorem over whole serialized frames (impl_refines_spec: parse of Frame.serialize) is not mechanised; the whole-frame statement is '
-         'exhibited on generated valid streams, where the implementation, the L1 model and the expected PCM coincide. Variable-blocksize numbering is parsed and ignored by the crate.',
+    note='32-bit stereo with a 33-bit side channel is proved at kernel level (wide_leftside_refines_spec) and exhibited on generated streams, not composed into the frame theorem; '
+         'whole files (frame sequence, MD5 of the PCM) are exhibited on generated valid streams, where the implementation, the L1 model and the expected PCM coincide. '
+         'Variable-blocksize numbering is parsed and ignored by the crate.',
     trusted_base=COMMON_TRUST + ['Driver/Gen.lean (generator of valid streams), validated per case against the L1 model'],
     assumptions=['valid stream: every value the format defines fits its declared width'],
 )
